@@ -114,6 +114,10 @@ type loopInfo struct {
 	body    map[int]bool
 	ordinal int
 	pos     token.Pos
+	// dry-run bookkeeping (loop frame rule): frame owning the loop, and the heap keys written in the body through
+	// anything but an object allocated inside the body (Store rooted at an Alloc of the body / of an inlined callee)
+	frame *Frame
+	oldW  map[string]bool
 }
 
 type Enc struct {
@@ -145,6 +149,9 @@ type Enc struct {
 	dynImpl         map[string]bool
 	qbound          []string // names of the quantifier variables whose body is being evaluated
 	dryCache        []dryCached
+	dryLoops        []*loopInfo // loops whose body is being dry-run (outermost first)
+	storeRoot       *ssa.Alloc  // root allocation of the Store being encoded (nil: not a store / unknown root)
+	storeFrame      *Frame
 	recGhost        map[string]bool
 }
 
@@ -298,9 +305,44 @@ func (e *Enc) havocUnknown(st *State) {
 	e.writeLog["*"] = true
 }
 
+// noteLoopWrite: a heap key is written while loop bodies are being dry-run. The write is harmless for a loop's frame
+// (objects that existed when the loop was entered keep their value) iff it is a Store whose address is rooted at an
+// allocation executed inside that loop's body: an Alloc of the loop's function located in the body, or an Alloc of a
+// function inlined (directly or indirectly) from the body.
+func (e *Enc) noteLoopWrite(key string) {
+	for _, li := range e.dryLoops {
+		fresh := false
+		if a := e.storeRoot; a != nil && e.storeFrame != nil && li.frame != nil {
+			// locate the frames of the allocation and of the loop on the current frame chain
+			depthOf := func(fn *ssa.Function, want *Frame) int {
+				d := 0
+				for f := e.storeFrame; f != nil; f = f.parent {
+					if (want != nil && f == want) || (want == nil && f.fn == fn) {
+						return d
+					}
+					d++
+				}
+				return -1
+			}
+			da, dl := depthOf(a.Parent(), nil), depthOf(nil, li.frame)
+			if da >= 0 && dl >= 0 {
+				if da < dl {
+					fresh = true // allocated in a callee inlined from inside the loop body
+				} else if da == dl && a.Block() != nil && li.body[a.Block().Index] {
+					fresh = true
+				}
+			}
+		}
+		if !fresh {
+			li.oldW[key] = true
+		}
+	}
+}
+
 func (e *Enc) heapSet(st *State, key, sort, term string) {
 	e.heapSort[key] = sort
 	e.writeLog[key] = true
+	e.noteLoopWrite(key)
 	if len(term) > 60 {
 		n := e.fresh(key, sort)
 		e.assert(eq(n, term))
@@ -315,6 +357,7 @@ func (e *Enc) heapHavoc(st *State, key string) {
 		return
 	}
 	e.writeLog[key] = true
+	e.noteLoopWrite(key)
 	st.heap[key] = e.fresh(key, sort)
 }
 
@@ -351,7 +394,7 @@ func (e *Enc) loadLoc(st *State, l *Loc) *Val {
 			}
 		}
 	}
-	// slice values held in memory are well-formed slices (type invariant of every Go slice value): 0 <= off, 0 <= len <= cap <= maxInt
+	// slice values held in memory are well-formed slices (type invariant of every Go slice value): 0 <= off, 0 <= len <= cap
 	for i := 0; i+3 < len(leaves); i++ {
 		if _, isSlice := leaves[i].T.Underlying().(*types.Slice); !isSlice || !strings.HasSuffix(leaves[i].Path, ".base") && leaves[i].Path != "base" {
 			continue
